@@ -202,6 +202,10 @@ def handle (op : String) (a : Json) : P Json := do
     let m ← moOf a
     let objs ← asArr (← field a "objs")
     pure <| Json.arr (← objs.mapM (moveOne m)).toArray
+  | "place" =>
+    -- occupancy of a polygon body at a state: {"ct","st","o":Pt,"pos":Pt,"ring":[Pt]} -> polygon vertices
+    pure <| resJ ptsJ (placePolygon (← getRat a "ct") (← getRat a "st") (← ptOf (← field a "o")) (← ptOf (← field a "pos"))
+                         (← getList ptOf a "ring"))
   | "poly_mk" => pure <| resJ ptsJ (polyMk (← getList ptOf a "v"))
   | _ => throw s!"C05: unknown op {op}"
 
